@@ -161,8 +161,14 @@ def malformed_job(job):
                                          edges=[(job['src'], job['tgt'], None, {'weight': 1.5})])
                     ct.run(outputs={'o': 'n0/li/x'}, **run_kw)
                 elif kind == 'output':
-                    circuit().run(outputs={'o': pre + job['path']} if job['form'] == 'dict' else [pre + job['path']],
-                                  **run_kw)
+                    good = pre + 'n1/li/x'
+                    outs = {'dict': {'o': pre + job['path']}, 'list': [pre + job['path']],
+                            'dict2': {'g': good, 'o': pre + job['path']}, 'list2': [good, pre + job['path']]}[job['form']]
+                    circuit().run(outputs=outs, **run_kw)
+                elif kind == 'edge_values':
+                    c = circuit()
+                    c.apply(edge_values={(pre + job['src'], pre + job['tgt']): {'weight': 3.0}}, vectorize=job['vectorize'],
+                            verbose=False, step_size=0.1, backend='default')
                 elif kind == 'input':
                     circuit().run(outputs={'o': pre + 'n0/li/x'}, inputs={pre + job['path']: np.ones(5)}, **run_kw)
                 elif kind == 'update_var':
@@ -229,10 +235,16 @@ def malformed_jobs(tier):
                               tgt=bad if which == 'tgt' else 'n1/li/u', must='raise',
                               key=f"edge:{which}:component{i}:vec={vec}"))
         for hier in (False, True):
-            for form in ('dict', 'list'):
+            for form in ('dict', 'list', 'dict2', 'list2'):
                 for bad, i in misspellings('n0/li/x'):
                     J.append(dict(kind='output', vectorize=vec, hier=hier, form=form, path=bad, must='raise',
                                   key=f"output:{form}:component{i}:hier={hier}:vec={vec}"))
+            if not hier:
+                for which in ('src', 'tgt'):
+                    for bad, i in misspellings('n0/li/x' if which == 'src' else 'n1/li/u'):
+                        J.append(dict(kind='edge_values', vectorize=vec, hier=hier, must='warn',
+                                      src=bad if which == 'src' else 'n0/li/x', tgt=bad if which == 'tgt' else 'n1/li/u',
+                                      key=f"edge_values:{which}:component{i}:vec={vec}"))
             for bad, i in misspellings('n0/li/u'):
                 J.append(dict(kind='input', vectorize=vec, hier=hier, path=bad, must='warn',
                               key=f"input:component{i}:hier={hier}:vec={vec}"))
